@@ -558,7 +558,7 @@ pub fn c06(ctx: &mut Ctx) {
             }
             let lwv = lws(&mut ctx.rng, kind);
             let pen = gen::penalties(&mut ctx.rng);
-            let (req, out, rows) = op_of(&frs, &lwv, pen);
+            let (req, out, rows, costs) = op_of(&frs, &lwv, pen);
             let desc = format!("wrap_optimal_fit({:?}, {:?}, {:?})", frs_tuple(&frs), lwv, pen);
             ctx.count(&format!("of_numkind_{}", kind));
             match out {
@@ -566,7 +566,7 @@ pub fn c06(ctx: &mut Ctx) {
                 OfOut::Overflow => {
                     ctx.count("of_overflow_error");
                     // only the error itself is compared (integer kinds must not overflow: C04)
-                    ctx.case(Op { req: format!("{}|shapeonly", req), real: "overflow;smawk=1".into() }, desc);
+                    ctx.case(Op { req: format!("{}|shapeonly|costs|{}", req, costs), real: "overflow;smawk=1;costs=1".into() }, desc);
                 }
                 OfOut::Ok(lens) => {
                     if !is_partition(&lens, frs.len()) {
@@ -579,7 +579,7 @@ pub fn c06(ctx: &mut Ctx) {
                         ctx.fail("smawk shape contract (r j < j)", format!("{}: rows {:?}", desc, rows), None);
                     }
                     // model: back-tracking over the same rows must give the same lines
-                    ctx.case(Op { req: format!("{}|shapeonly", req), real: format!("ok:{};smawk=1", crate::proto::enc_nats(&lens)) }, desc.clone());
+                    ctx.case(Op { req: format!("{}|shapeonly|costs|{}", req, costs), real: format!("ok:{};smawk=1;costs=1", crate::proto::enc_nats(&lens)) }, desc.clone());
                     if lens.len() >= 2 {
                         ctx.nontrivial(&desc);
                     }
